@@ -315,7 +315,7 @@ def run_text(ctx, parsed, meta_out):
     for di, (d, tape, toks) in enumerate(parsed):
         for i, t in enumerate(toks):
             if t.startswith("H:"):
-                for m in ((di, str(i), "v", "w", "0", "p", "a"), (di, str(i + 1), "v", "w", "0", "p", "a")):
+                for m in [(di, str(i + k), "v", "w", "0", du, na) for (du, na) in (("p", "a"), ("k", "n"), ("g", "u")) for k in (0, 1)]:
                     if m not in have:
                         chosen.append(m); have.add(m)
     cases = []
@@ -386,7 +386,7 @@ def run_text(ctx, parsed, meta_out):
                     ctx.count("doc-order skipped: " + str(ex)[:40])
                 except (IndexError, KeyError, TypeError, ValueError):
                     ctx.count("doc-order skipped: grammar")
-        if idx != "top" and entry == "v" and doc_toks[int(idx)].startswith("H:") and du == "p":
+        if idx != "top" and entry == "v" and doc_toks[int(idx)].startswith("H:"):
             # {"<header>": <json of the container>}
             h = doc_toks[int(idx)][2:]
             q = (di, str(int(idx) + 1), "v", enc, p, du, na)
